@@ -213,6 +213,8 @@ impl VersionManager {
 
     /// Commit changes and return a new epoch number
     pub async fn commit_changes(&self, ops: Vec<EpochOp>) -> StorageResult<u64> {
+        #[cfg(feature = "verif")]
+        crate::verif::point("commit.begin").await;
         // Hold the manifest lock so that no one else could commit changes.
         let mut manifest = self.manifest.lock().await;
 
@@ -294,6 +296,8 @@ impl VersionManager {
 
         // Persist the change onto the disk.
         manifest.append(&entries).await?;
+        #[cfg(feature = "verif")]
+        crate::verif::point("commit.appended").await;
 
         // Add epoch number and make the modified snapshot available.
         let mut inner = self.inner.lock();
@@ -366,7 +370,11 @@ impl VersionManager {
     }
 
     pub async fn do_vacuum(self: &Arc<Self>) -> StorageResult<()> {
+        #[cfg(feature = "verif")]
+        crate::verif::point("vacuum.wake").await;
         let deletions = self.find_vacuum().await?;
+        #[cfg(feature = "verif")]
+        crate::verif::point(format!("vacuum.found({})", deletions.len())).await;
 
         for (table_id, rowset_id) in deletions {
             let path = self
